@@ -62,6 +62,15 @@ CLAIMS["C19"] = dict(
     note="CPython's evaluation of whitelisted nodes and transcendental functions are trusted (opaque in the model); comparison tolerance from a running IEEE error bound.",
     design="8.C19")
 
+CLAIMS["C17"] = dict(
+    technique="Lean 4 theorems about a model of random-stream bookkeeping (Atomica.Rng: serial / forked-inherited / reseeded workers, retry loop, zero-sigma sampling) + correspondence over real serial and parallel sampled runs (mode E)",
+    text="Proof: for every schedule (any number of workers, any assignment of samples) reseeded workers consume pairwise distinct stream segments while inherited generator state makes the first task of "
+         "every worker collide (the model of the unfixed code; it predicted the observed collision patterns exactly); zero-uncertainty sampling is the identity; ProgramSet.sample is total; the retry loop "
+         "draws fresh inputs. The real Project.run_sampled_sims and Ensemble.run_sims are run serially and in parallel (1..16 workers), sampled inputs recorded inside the workers and compared for "
+         "pairwise distinctness; sources are deep-snapshotted before and after.",
+    note="PARTIAL: fork, the OS scheduler, the entropy source and the statistical quality of the generator are runtime; 'independent' is modelled as disjoint stream segments plus an injectivity hypothesis evaluated on the real draws of every run.",
+    design="8.C17")
+
 NA_DEFAULT = "not yet claimed: model, theorems and correspondence under construction (see DESIGN.md section 8)"
 NA = {}
 
